@@ -466,6 +466,68 @@ Proof. intros H. rewrite !failures_skipped, H. tauto. Qed.
 Lemma active_cases o : active o = true <-> o = OGood \/ o = ODieLater \/ o = OHangLater.
 Proof. destruct o; cbn; split; intros H; try discriminate; try tauto; destruct H as [H|[H|H]]; discriminate. Qed.
 
+(* ------------------------------------------------------------------ a plugin's start depends on its own behaviour only *)
+
+(* C18_start_depends_on_own_behaviour: with a request time-out T and answer times tm, whether p ends up in r.plugins
+   is decided by p's own outcome and p's own answer time; the other plugins' outcomes and times (a hanging one
+   before it included), their number and their order are irrelevant *)
+Theorem start_depends_on_own_behaviour T tm tm' oc oc' ds p : oc p = oc' p -> tm p = tm' p ->
+  (In p (start_plugins (timed_outcome T tm oc) ds) <-> In p (start_plugins (timed_outcome T tm' oc') ds)).
+Proof. intros Ho Ht. apply others_unaffected. unfold timed_outcome. rewrite Ho, Ht. reflexivity. Qed.
+
+(* C18_slow_plugins_do_not_affect_others: a discovered plugin that is healthy and answers within the time-out is kept,
+   whatever time every other plugin takes *)
+Theorem timely_plugin_kept T tm oc ds p : In p ds -> active (oc p) = true -> (tm p <= T)%Z ->
+  In p (start_plugins (timed_outcome T tm oc) ds).
+Proof.
+  intros Hi Ha Ht. apply failures_skipped. split; [exact Hi|]. unfold timed_outcome.
+  apply Z.leb_le in Ht. destruct (oc p); cbn in Ha; try discriminate; rewrite Ht; reflexivity.
+Qed.
+
+(* … and one that does not answer in time is dropped and killed like any plugin refusing to synchronise *)
+Theorem late_plugin_dropped T tm oc ds p : (T < tm p)%Z ->
+  ~ In p (start_plugins (timed_outcome T tm oc) ds) /\
+  (launches (oc p) = true -> state_after_start (timed_outcome T tm oc p) = Some PGone).
+Proof.
+  intros Ht. assert (E : (tm p <=? T)%Z = false) by (apply Z.leb_gt; exact Ht).
+  split.
+  - intros H. apply failures_skipped in H. destruct H as [_ Ha]. unfold timed_outcome in Ha. rewrite E in Ha.
+    destruct (oc p); cbn in Ha; discriminate.
+  - unfold timed_outcome. rewrite E. destruct (oc p); cbn; intros; try discriminate; reflexivity.
+Qed.
+
+(* the process-level account: start_world is the plugin-wise image of start_record *)
+Theorem start_world_pointwise calls fails oc ds :
+  start_world calls fails oc ds = map (fun p => start_record calls fails (oc p) p) (filter (fun p => launches (oc p)) ds).
+Proof.
+  unfold start_world, failed_start_world, attempt_world, stop_plugins, start_record. destruct fails.
+  - rewrite map_map. apply map_ext. intros p. unfold stop_step. cbn.
+    destruct (starts (oc p) && (negb calls || syncs (oc p)))%bool; reflexivity.
+  - reflexivity.
+Qed.
+
+(* The variant in which ONE deadline T is shared by the whole synchronisation loop — the time an earlier plugin takes
+   (at most until the deadline) is charged to the later ones — is refuted: a healthy, prompt plugin after a hanging
+   one is dropped *)
+Fixpoint synced_shared_deadline (T : Z) (tm : discovered -> Z) (oc : discovered -> outcome) (elapsed : Z)
+    (l : list discovered) : list discovered :=
+  match l with
+  | [] => []
+  | p :: r =>
+      if (syncs (oc p) && (elapsed + tm p <=? T)%Z)%bool
+      then p :: synced_shared_deadline T tm oc (elapsed + tm p)%Z r
+      else synced_shared_deadline T tm oc (Z.min T (elapsed + tm p))%Z r
+  end.
+
+Theorem shared_deadline_refuted : exists T tm oc ds p,
+  In p ds /\ active (oc p) = true /\ (tm p <= T)%Z /\ ~ In p (synced_shared_deadline T tm oc 0 (started oc ds)).
+Proof.
+  exists 10%Z, (fun q => if String.eqb (d_base q) "hang" then 1000%Z else 1%Z), (fun _ => OGood),
+    [ {| d_idx := "10"; d_base := "hang"; d_cfg := "" |}; {| d_idx := "20"; d_base := "ok"; d_cfg := "" |} ],
+    {| d_idx := "20"; d_base := "ok"; d_cfg := "" |}.
+  split; [right; left; reflexivity|]. split; [reflexivity|]. split; [cbn; lia|]. cbn. intros H. exact H.
+Qed.
+
 (* ------------------------------------------------------------------ invocation order *)
 
 Definition num_le (a b : discovered) : Prop := (idx_num (d_idx a) <= idx_num (d_idx b))%Z.
